@@ -51,6 +51,7 @@ const (
 	VerifC36UnknownTypeShort
 	VerifC36GlobalNoWant
 	VerifC36OpenTruncated
+	VerifC36OpenRej // a channel type the application rejects; the peer's id for it equals O's local id
 	VerifC36NKinds
 )
 
@@ -166,6 +167,8 @@ func (p VerifC36Params) pkt(kind int, oLocal, iLocal uint32) []byte {
 		return []byte{199}
 	case VerifC36OpenTruncated:
 		return []byte{msgChannelOpen, 0, 0}
+	case VerifC36OpenRej:
+		return Marshal(channelOpenMsg{ChanType: "rej", PeersID: oLocal, PeersWindow: 1000, MaxPacketSize: 100})
 	}
 	panic("bad kind")
 }
@@ -212,6 +215,9 @@ func VerifC36Run(p VerifC36Params) *VerifC36Result {
 					desc = fmt.Sprintf("openConfirm:%d", x.PeersID)
 				case *channelOpenFailureMsg:
 					desc = fmt.Sprintf("openFail:%d", x.PeersID)
+					if x.Message == "app says no" {
+						desc = "appReject" // sent by the application, hence not ordered with the mux's own replies
+					}
 				case *channelRequestMsg:
 					desc = fmt.Sprintf("chanReq:%d", x.PeersID)
 					if x.WantReply && x.Request == "first" {
@@ -273,7 +279,7 @@ func VerifC36Run(p VerifC36Params) *VerifC36Result {
 		}
 		return false
 	}
-	// the application: accepts every channel, answers every request positively
+	// the application: accepts every channel (except type "rej", which it rejects), answers every request positively
 	drain := func(reqs <-chan *Request, count *int) {
 		defer wg.Done()
 		for r := range reqs {
@@ -292,6 +298,11 @@ func VerifC36Run(p VerifC36Params) *VerifC36Result {
 			mu.Lock()
 			res.NewChans++
 			mu.Unlock()
+			if nc.ChannelType() == "rej" {
+				nc.Reject(Prohibited, "app says no")
+				accepted <- struct{}{}
+				continue
+			}
 			_, reqs, err := nc.Accept()
 			if err == nil {
 				wg.Add(1)
